@@ -18,7 +18,7 @@ def run(res, args):
     import re
     from lib import apirun
     from lib.common import Broken
-    napi = npanic = 0
+    napi = npanic = nover = 0
     for fam in ("C11", "C09"):
         try:
             a = apirun.run(res.tier, res.seed, fam)
@@ -36,4 +36,17 @@ def run(res, args):
                 if npanic <= 5:
                     res.add_violation("a register-API call panics (or never returns)", key="C06:api:" + re.sub(r"^\S+ ", "", cl)[:120],
                                       input=cl, observed=ol[:400])
+            # "writes at most eight frames per register access": the frames written during each single register read of
+            # the API (one access) and during connect (ping + device id: one frame each)
+            wo = re.search(r" wo=(\S+)", ol)
+            om = re.search(r"ops=(\S+)", cl)
+            if wo and om:
+                for op, n in zip(om.group(1).split(";"), wo.group(1).split(",")):
+                    limit = 8 if op.startswith("read/") else 2 if op == "connect" else None
+                    if limit is not None and int(n) > limit:
+                        nover += 1
+                        if nover <= 5:
+                            res.add_violation("the register-API operation %s writes %s frames (at most %d per register access)" % (op, n, limit),
+                                              key="C06:api-frames:" + re.sub(r"^\S+ ", "", cl)[:120], input=cl, observed=ol[:400])
     res.cov["register_api_cases_without_panic"] = napi - npanic
+    res.cov["register_api_accesses_over_8_frames"] = nover
